@@ -31,14 +31,14 @@ CoreMethods ==
 ConnectMethods ==
   { C("connect", <<>>, ""), C("disconnect", <<>>, ""), C("command", <<>>, "SM,100,0,0"), C("query", <<>>, "QX"), C("bootload", <<>>, ""), C("reboot", <<>>, ""),
     C("query_statusbyte", <<>>, ""), C("var_write", <<7, 3>>, ""), C("motors_enable", <<0, 2>>, ""), C("write_nickname", <<>>, "Axi") }
-AllDevices == {"ebb_ok", "ebb_late", "ebb_old", "non_ebb", "silent", "unopenable", "absent", "raise_on_probe"}
+AllDevices == {"ebb_ok", "ebb_late", "ebb_old", "ebb_noversion", "ebb_in_text", "non_ebb", "silent", "unopenable", "absent", "raise_on_probe"}
 OkDevices == {"ebb_ok"}
 \* C16: board round trips
 MinInt32 == (0 - 2147483647) - 1
 Int32Vals == {0, 1, -1, 127, 128, 255, 256, 65535, 16777216, -16777216, 16909060, -16909060, 2147483647, -2147483647, MinInt32}
 BoardCalls ==
   {C("var_write_int32", <<v, i>>, "") : v \in Int32Vals, i \in {0, 1, 27, 28}} \cup {C("var_read_int32", <<i>>, "") : i \in {0, 1, 27, 28}}
-  \cup {C("write_nickname", <<>>, nm) : nm \in {"Axi", "East Wing", ""}} \cup {C("query_nickname", <<>>, "")}
+  \cup {C("write_nickname", <<>>, nm) : nm \in {"Axi", "East Wing", "", "Jerry"}} \cup {C("query_nickname", <<>>, "")}
 BoardCallsSmall ==
   {C("var_write_int32", <<v, i>>, "") : v \in {0, -1, 255, 256, -16909060, 2147483647}, i \in {0, 2, 28}} \cup {C("var_read_int32", <<i>>, "") : i \in {0, 2, 28}}
   \cup {C("var_write", <<200, 3>>, ""), C("write_nickname", <<>>, "Axi"), C("query_nickname", <<>>, "")}
